@@ -36,10 +36,14 @@ def extract(repo):
            ]
     # accumulate_text_width: `let mut ret = Vec::new(); let mut w = W0; for ch in text.chars() { BODY; ret.push(w); } ret`
     b = re.sub(r"\s+", " ", re.sub(r"//[^\n]*", "", R.fn_body(src, "accumulate_text_width")[0])).strip()
-    m = re.fullmatch(r"let mut ret = Vec::new\(\); let mut w = (\d+); for ch in text\.chars\(\) \{ (.*) ret\.push\(w\); \} ret", b)
+    m = re.fullmatch(r"let mut (\w+) = Vec::new\(\); let mut (\w+) = (\d+); for (\w+) in text\.chars\(\) \{ (.*) \1\.push\(\2\); \} \1", b)
     if not m:
         raise R.Unsupported("accumulate_text_width: not `ret = []; w = k; for ch in text.chars() { ..; ret.push(w); } ret`")
-    step = m.group(2)
+    # canonical local names (a renamed accumulator / loop variable is the same program)
+    step = re.sub(r"(?<![.\w])%s\b(?!\()" % re.escape(m.group(2)), "w", m.group(5))
+    step = re.sub(r"(?<![.\w])%s\b(?!\()" % re.escape(m.group(4)), "ch", step)
+    init_w = m.group(3)
+    step = step.replace("ch != '\\t'", "!(ch == '\\t')")
     for text, name in (("ch == '\\t'", "isTab"), ("ch.width().unwrap_or(2)", "chw")):
         if step.count(text) != 1:
             raise R.Unsupported("accumulate_text_width: `%s` not found exactly once in the loop body" % text)
@@ -47,7 +51,7 @@ def extract(repo):
     if "ch" in re.findall(r"[A-Za-z_]+", step):
         raise R.Unsupported("accumulate_text_width: the loop body uses `ch` in another way")
     e2 = R.translate(step, {}, result="w", locals_={"w": "Nat", "tabstop": "Nat", "isTab": "Bool", "chw": "Nat"})
-    out += ["/-- `let mut w = k` of `accumulate_text_width` -/", "def accInit : Nat := %s" % m.group(1), "",
+    out += ["/-- `let mut w = k` of `accumulate_text_width` -/", "def accInit : Nat := %s" % init_w, "",
             "/-- the body of its `for ch in text.chars()` loop up to `ret.push(w)`: the new `w` (`isTab` = `ch == '\\t'`, `chw` =",
             "    `ch.width().unwrap_or(2)`) -/",
             "def accStep (tabstop w : Nat) (isTab : Bool) (chw : Nat) : Nat :=",
